@@ -9,9 +9,9 @@ KINDS = ["echo", "echo", "noread", "p", "notfound", "close", "err", "errclose", 
 MODES = ["serve", "threaded", "epoll"]
 
 
-def gen_plans(seed, tier):
+def gen_plans(seed, tier, small=False):
     r = rng_for(seed, "serve")
-    n = 25 if tier == "quick" else 600
+    n = 25 if tier == "quick" else 120 if small else 600
     plans = []
     for _ in range(n):
         conns = []
@@ -138,7 +138,7 @@ def parse(ans):
 def run(pid):
     def run_(o, ctx, tier, seed, replay=None):
         t = "thorough" if tier in ("thorough", "search") else "quick"
-        plans = gen_plans(seed, t)
+        plans = gen_plans(seed, t, small=(tier == "search"))
         lines, meta = [], []
         for threads, conns, slowtd in plans:
             plan = "/".join("%s:%s" % (d, sc) for d, sc, _, _ in conns)
@@ -208,12 +208,12 @@ RULE = ("SERVE plans: 25 (quick) / 600 (thorough) plans of 1-4 sequential connec
         "1-3 request keep-alive history (read all / nothing, close tokens either side, handler error, reader responses, segmentations), executed against serve, serve_threaded and serve_epoll with 1, 2 or 4 threads. "
         "distinct_nontrivial = distinct (mode, plan) lines with at least 3 connections.")
 ASSUME = ["connections are independent and sequential (no more simultaneously open connections than pool threads)", "OS scheduling not modelled: the interleavings are those the scenarios provoke"]
-register("C16", lean=["Khttp.Props.C16", "Khttp.Props.C07Skeleton", "Khttp.Props.C14Skeleton"], run=run("C16"), rule=RULE, assumptions=ASSUME, known_check=known_c16,
+register("C16", lean=["Khttp.Props.C16", "Khttp.Props.C14Skeleton"], soft_lean=["Khttp.Props.C07Skeleton"], run=run("C16"), rule=RULE, assumptions=ASSUME, known_check=known_c16,
          explanation="Theorems (Props/C16) over the hook-event logs of the three accept loops (any cfg, any list of incoming connections): setup exactly once and first per accepted connection; Drop = [setup, closed silently]; "
                      "StopAccepting = log ends with setup, returned and nothing of later connections; pre-routing once per parsed request before its responses; teardown exactly once, last, with the final result, for every "
                      "proceeded connection that ended; none for dropped/stopping ones. Known finding K16: serve_epoll abandons connections still open at StopAccepting (refuted in Props/C15: C15_after_stop_full_false). "
                      "Tie: control skeleton of serve / serve_threaded / handle_one_request and of epoll.rs (decide) + SERVE correspondence across the three real modes. Oracle: hook counters per connection and the serve call returning.")
-register("C17", lean=["Khttp.Props.C17", "Khttp.Props.C07Skeleton", "Khttp.Props.C14Skeleton"], run=run("C17"), rule=RULE, assumptions=ASSUME,
+register("C17", lean=["Khttp.Props.C17", "Khttp.Props.C14Skeleton"], soft_lean=["Khttp.Props.C07Skeleton"], run=run("C17"), rule=RULE, assumptions=ASSUME,
          explanation="Theorems (Props/C17): the sequence of one-request epoll jobs is the handle_connection loop (C17_jobs_are_the_loop), hence the three modes produce the same per-connection event streams and close at the same point "
                      "(C17_modes_equal, C17_streams_equal); scheduling (who runs the per-connection code) is the subject of C13/C14. Oracle: byte-identical transcripts of the same plan under serve, serve_threaded and serve_epoll on the real code, "
                      "each equal to the specified transcript.")
